@@ -15,6 +15,11 @@ CHECKS['C18'] = ('model_checking', '§5 C18',
     'Python str/upper/lower are the reference; out-of-range slices may be an error or the clamped slice; \\u{..} inside f-strings is treated as unspecified.',
     'bounded-exhaustive term enumeration vs reference model (Python str)')
 
+CHECKS['C13'] = ('exploration', '§5 C13',
+    'Every static overload whose return type carries a float (float, Complex, Duration, Datetime, JSON, Matrix, LinearRegression and containers of them) is called on the complete product (arity<=2) of edge-value pools (0, -0, subnormal, 1e-300, 709.79, 1e155, 1e300, DBL_MAX, huge integers up to 10^400); plus operators, dynamic statistics, literal spellings and JSON numbers. Oracle is a range claim: no float with an all-ones exponent anywhere in the dumped result.',
+    'Pools are finite; a function that overflows only at another operand is missed. No reference values are compared (that is C02/C14/C20).',
+    'bounded-exhaustive enumeration of call terms with a range oracle')
+
 NA = {
 }
 
